@@ -75,6 +75,9 @@ def in_harness_crate(path):
     return os.path.normpath(path).startswith(KANI_CRATE + os.sep)
 
 
+OVERFLOW_DESC = re.compile(r"attempt to (add|subtract|multiply|negate|shift left|shift right) with overflow|attempt to compute .* which would overflow")
+
+
 def is_library_panic(chk):
     """A failed check that is a safe-code panic raised by triomphe (or by core on its behalf)."""
     desc = chk.get("description", "")
@@ -270,6 +273,12 @@ def classify(h):
                 inconcl.append("unwinding assertion failed: bound too small")
             elif cat == "unsupported_construct":
                 inconcl.append("reached a construct Kani does not support: " + desc[:80])
+            elif h.profile == "nodebug" and in_repo_src((c.get("location") or {}).get("file", "")) and OVERFLOW_DESC.search(desc):
+                # Kani keeps rustc's overflow checks on whatever the flags say; the build this profile stands for
+                # (release: debug assertions AND overflow checks off) wraps silently at this point, so what follows
+                # is not what the solver explored: refusing by "overflow panic" does not exist there.
+                c = dict(c, description=desc + "  [arithmetic overflow in library code: a release build does not panic here, it wraps]")
+                bad.append(c)
             elif h.panics_allowed and is_library_panic(c):
                 h.allowed_panics.append(c)
             else:
